@@ -23,6 +23,12 @@ func verif_forall[T any](f func(T) bool) bool { return true }
 // at the end of the body for every n with g(n); proved by induction on n (interpreted by govc)
 func verif_preserved[T any](g func(int) bool, e func(int) T) bool { return true }
 
+// SpecSeqOK: the record sequence number is far from the end of its 64-bit range (an assumption about the
+// process lifetime: fewer than 2^63 records are opened). Under it the counter never wraps, so the value
+// that makes a session reference unique is never handed out twice (C10); stated so that narrowing the
+// counter is noticed.
+func SpecSeqOK() bool { return uint64(chf_context.GetSelf().LocalRecordSequenceNumber) < 1<<63 }
+
 // verif_held: the mutex is held by the current request (interpreted by govc)
 func verif_held(mu *sync.Mutex) bool { return true }
 
@@ -57,6 +63,8 @@ var _, _ = abmf.GhostRequests, rating.GhostRequests
 // open record of the session gets the next partial sequence number, or an error for an unknown session.
 //@ func (*Processor).OpenCDR [C02 C11]
 //@   requires ue != nil && !verif_held(&chf_context.GetSelf().Mutex)
+//@   requires [C10] SpecSeqOK()
+//@   assert "chfCdr.LocalRecordSequenceNumber = &cdrType.LocalSequenceNumber{": [C10] self.LocalRecordSequenceNumber != 0
 //@   ensures !partialRecord && result1 == nil ==> result0 != nil && result0.ChargingFunctionRecord != nil && result0.Present == 1
 //@   ensures !partialRecord ==> (result1 != nil) == (chargingData.NfConsumerIdentification == nil)
 //@   ensures !partialRecord && result1 == nil ==> result0.ChargingFunctionRecord.ChargingID != nil && result0.ChargingFunctionRecord.ChargingID.Value == int64(chargingData.ChargingId)
@@ -144,6 +152,7 @@ func specSameQuota(ue *chf_context.ChfUe, old map[int32]int64) bool {
 // partial record that continues it, which then is what the reference designates).
 //@ func (*Processor).ChargingDataUpdate [C09 C10 C11 C12]
 //@   entry
+//@   requires [C10] SpecSeqOK()
 //@   requires cgf.SpecReady()
 //@   requires [C20] factory.SpecValidated(factory.ChfConfig)
 //@   requires [C20] chf_context.GetSelf().AbmfCfg != nil && chf_context.GetSelf().RatingCfg != nil
@@ -164,6 +173,7 @@ func specSameQuota(ue *chf_context.ChfUe, old map[int32]int64) bool {
 // is held; the new record is what the reference designates; other sessions keep their records.
 //@ func (*Processor).ChargingDataCreate [C09 C10 C11 C12]
 //@   entry
+//@   requires [C10] SpecSeqOK()
 //@   requires cgf.SpecReady()
 //@   ensures (result0 != nil) == (result2 == nil)
 //@   ensures result2 != nil ==> result2.Status >= 400 && result2.Status < 500 && result1 == ""
@@ -323,6 +333,7 @@ var ghostHttpWrites int
 // Exactly one response per request; 201 / 200 with a body, 204 without, otherwise a 4xx problem body.
 //@ func (*Processor).HandleChargingdataInitial [C11 C12]
 //@   entry
+//@   requires [C10] SpecSeqOK()
 //@   requires cgf.SpecReady()
 //@   inline-calls (*Processor).ChargingDataCreate
 //@   modifies-anything
@@ -333,6 +344,7 @@ var ghostHttpWrites int
 
 //@ func (*Processor).HandleChargingdataUpdate [C11 C12]
 //@   entry
+//@   requires [C10] SpecSeqOK()
 //@   requires cgf.SpecReady()
 //@   inline-calls (*Processor).ChargingDataUpdate
 //@   modifies-anything
